@@ -5,6 +5,7 @@ Everything is built from the source text with ``ast``; nothing from pySDC is imp
 
 import ast
 import os
+import warnings
 
 LIB_DIRS = (
     'pySDC/core',
@@ -36,7 +37,9 @@ class Module:
         tree = _AST_CACHE.get(key)
         if tree is None:
             try:
-                tree = ast.parse(self.source, filename=self.path)
+                with warnings.catch_warnings():
+                    warnings.simplefilter('ignore', SyntaxWarning)
+                    tree = ast.parse(self.source, filename=self.path)
             except SyntaxError as e:  # a file that does not parse breaks the analysis, it is not a violation
                 raise AnalysisError(f'{relpath} does not parse: {e}')
             _AST_CACHE[key] = tree  # trees are never modified by the rules (substitutions work on deep copies)
